@@ -541,6 +541,13 @@ def gen_params(rng, recipe: dict, meta: dict, sparsity: float = 0.0) -> dict:
     # income 'k' is an additive drift, keep it small so that income stays positive
     if "income" in params and "k" in params["income"]:
         params["income"]["k"] = round(rng.uniform(0.01, 0.08), 9)
+    # users write integer-valued start values as integers (wage=2, k=1): at most one leaf per set,
+    # a multiplicative coefficient only (the other coefficients stay generic reals: no exact ties)
+    if rng.random() < 0.3:
+        cands = [(fn, p) for fn in meta["functions"] for p in sorted(meta["fn_params"][fn]) if p in ("k", "ke", "wage") and not (fn == "income" and p == "k")]
+        if cands:
+            fn, p = rng.choice(cands)
+            params[fn][p] = float(rng.choice([1, 2]))
     if meta["stochastic"]:
         params["shocks"] = {
             st: gen_transition_array(rng, recipe, st, deps, sparsity) for st, deps in meta["stochastic"].items()
@@ -674,6 +681,28 @@ def perturb_params(rng, recipe: dict, meta: dict, base: dict, sparsity: float = 
             out["shocks"][lf[1]] = fresh["shocks"][lf[1]]
         else:
             out[lf[0]][lf[1]] = fresh[lf[0]][lf[1]]
+    return out
+
+
+def fd_neighbour_params(rng, recipe: dict, meta: dict, base: dict) -> dict:
+    """A finite-difference neighbour of ``base``: ONE scalar leaf moved by a relative step of
+    1e-7..1e-5 (what a numerical optimiser does thousands of times between two calls).  A result
+    served from anything keyed by rounded / single-precision / 'close enough' parameter values is
+    off by about the step, far above the comparison tolerance."""
+    import copy
+
+    out = copy.deepcopy(base)
+    leaves = [("beta",)]
+    for fn in meta["functions"]:
+        for pn in meta["fn_params"][fn]:
+            leaves.append((fn, pn))
+    lf = rng.choice(leaves)
+    step = rng.choice([1e-7, -1e-7, 1e-6, 1e-5, -1e-5])
+    if lf == ("beta",):
+        out["beta"] = min(0.999, base["beta"] * (1.0 + step))
+    else:
+        v = base[lf[0]][lf[1]]
+        out[lf[0]][lf[1]] = v * (1.0 + step) if v != 0 else abs(step)
     return out
 
 
